@@ -197,7 +197,88 @@ func genPayload(t *verifsim.Tape, d *spec.Design, m *spec.Method) any {
 		o := gen.GenOpts{Loc: loc, AvoidZero: f.HasDef && !f.Required, NonEmpty: loc != gen.LocBody}
 		obj[f.Name] = gen.GenValid(t, d, f, o)
 	}
+	oneCredentialPerCarrier(t, d, m, obj)
 	return obj
+}
+
+// sharedCarriers lists, per header that carries the credentials of several schemes, the attributes reading it.
+func sharedCarriers(d *spec.Design, m *spec.Method) map[string][]string {
+	out := map[string][]string{}
+	if m.Payload == nil {
+		return out
+	}
+	for _, f := range d.Resolve(m.Payload.Type).Fields {
+		if h, ok := m.Headers[f.Name]; ok && f.Sec != "" {
+			out[h] = append(out[h], f.Name)
+		}
+	}
+	for h, as := range out {
+		if len(as) < 2 {
+			delete(out, h)
+		}
+	}
+	return out
+}
+
+// oneCredentialPerCarrier: a header holds one value, so of the credentials sharing one the caller sets one.
+func oneCredentialPerCarrier(t *verifsim.Tape, d *spec.Design, m *spec.Method, obj map[string]any) {
+	sc := sharedCarriers(d, m)
+	hs := make([]string, 0, len(sc))
+	for h := range sc {
+		hs = append(hs, h)
+	}
+	sort.Strings(hs)
+	for _, h := range hs {
+		var set []string
+		for _, a := range sc[h] {
+			if obj[a] != nil {
+				set = append(set, a)
+			}
+		}
+		if len(set) < 2 {
+			continue
+		}
+		keep := set[t.Draw("shared-carrier-keep", len(set))]
+		for _, a := range set {
+			if a != keep {
+				delete(obj, a)
+			}
+		}
+	}
+}
+
+// expectedPayload is what the service method must receive for a payload the caller expressed.
+func expectedPayload(d *spec.Design, m *spec.Method, payload any) any {
+	want := gen.Expected(d, payload, orNil(m.Payload))
+	serverSideOfSharedCarriers(d, m, want)
+	return want
+}
+
+// serverSideOfSharedCarriers: the server reads the one header value into every attribute mapped to it
+// (scheme prefix removed).
+func serverSideOfSharedCarriers(d *spec.Design, m *spec.Method, want any) {
+	obj, _ := want.(map[string]any)
+	if obj == nil {
+		return
+	}
+	for _, as := range sharedCarriers(d, m) {
+		var v any
+		for _, a := range as {
+			if obj[a] != nil {
+				v = obj[a]
+			}
+		}
+		if s, ok := v.(string); ok {
+			if i := strings.Index(s, " "); i >= 0 {
+				v = s[i+1:]
+			}
+		}
+		for _, a := range as {
+			if v != nil {
+				obj[a] = v
+			}
+		}
+	}
 }
 
 func genResult(t *verifsim.Tape, d *spec.Design, m *spec.Method, resp *spec.Response) any {
@@ -607,7 +688,7 @@ func runExchange(t *verifsim.Tape, cfg engine.Config, prop string) *engine.Outco
 				continue
 			}
 			if prop == "C02" || prop == "C04" {
-				want := gen.Expected(d, payload, orNil(m.Payload))
+				want := expectedPayload(d, m, payload)
 				if diff := gen.Diff(want, w.invoked[0].got, ""); diff != "" {
 					o.Violate("payload_delivery", "delivery:"+diffClass(d, m, diff)+":"+sig, "%s: payload changed in transit: %s\n  sent     %s\n  received %s\n  request  %s", where, diff, gen.Show(payload), gen.Show(w.invoked[0].got), firstLineOf(ex.ReqWire))
 				}
@@ -780,7 +861,7 @@ func sigOf(d *spec.Design, m *spec.Method, payload, result any, st *gen.Site) st
 // injected fault: an operation may fail or not happen; it may never deliver a
 // wrong value as if nothing had happened.
 func judgeFaulty(o *engine.Outcome, w *world, d *spec.Design, m *spec.Method, ex *simnet.Exchange, payload any, where, sig string, cerr error) {
-	want := gen.Expected(d, payload, orNil(m.Payload))
+	want := expectedPayload(d, m, payload)
 	switch {
 	case ex.ReqFault == "drop_request":
 		if len(w.invoked) != 0 || cerr == nil {
@@ -1090,8 +1171,22 @@ func planSecurity(t *verifsim.Tape, d *spec.Design, s *spec.Service, m *spec.Met
 			obj[pf.Name] = "s3cret"
 		}
 	}
+	oneCredentialPerCarrier(t, d, m, obj)
+	shared := map[string]string{} // attribute -> the attribute whose value its header carries
+	for _, as := range sharedCarriers(d, m) {
+		for _, a := range as {
+			if obj[a] != nil {
+				for _, b := range as {
+					shared[b] = a
+				}
+			}
+		}
+	}
 	cred := func(sc *spec.Scheme) []string {
 		str := func(name string) string {
+			if src, ok := shared[name]; ok {
+				name = src
+			}
 			if v, ok := obj[name].(string); ok {
 				return v
 			}
@@ -1793,7 +1888,7 @@ func judgeDropped(o *engine.Outcome, w *world, d *spec.Design, design string, s 
 			o.Violate("optional_element_missing_refused", "missing-optional-refused:"+cls, "%s: the request lacks the OPTIONAL %s %q (attribute %s) and was not served: status %d body %q", where, ex.DroppedLoc, ex.DroppedName, f.Name, ex.Status, clipS(string(ex.RespBody)))
 			return
 		}
-		want := gen.Expected(d, p2, m.Payload)
+		want := expectedPayload(d, m, p2)
 		if f.HasDef {
 			o.Features["default_injected_checked"]++
 		}
